@@ -31,6 +31,15 @@ def gen_cases(rng, n, ops=DENSE_OPS):
         if not vars_of(phi):
             continue                      # no input signal: the common input domain is not defined
         vs = vars_of(phi)
+        diffstart = False
+        if rng.random() < 0.25:
+            g2 = Gen(rng, vars_=rng.choice([("x", "y"), ("x", "y", "z")]), S=S, ops=[o for o in ops if o not in TIMED] if rng.random() < 0.7 else ops,
+                     ivs=IVS, bool_atoms=True, arith=("add", "sub", "abs", "neg"))
+            for _ in range(30):
+                phi2 = g2.formula(rng.choice([1, 2, 2, 3]))
+                if len(vars_of(phi2)) >= 2 and not any(q["op"] not in ("var", "const") and not vars_of(q) for q in subformulas(phi2)):
+                    phi, vs, diffstart = phi2, vars_of(phi2), True
+                    break
         end = rng.choice([3, 5, 8, 10, 12])
         w = {}
         # all variables share the first and the last time-stamp (what a past window sees before the common domain,
@@ -38,8 +47,27 @@ def gen_cases(rng, n, ops=DENSE_OPS):
         t0 = rng.choice([0, 0, 0, 1, 2]) if rng.random() < 0.3 else 0
         for v in vs:
             w[v] = gen_signal(rng, rng.choice([1, 2, 3, 4, 6, 8]), t0=min(t0, end - 1), S=S, end=end)
+        if diffstart and rng.random() < 0.5:
+            # shaped: an unbounded past operator over the signal that begins first, combined with a signal that begins later
+            e_, l_ = rng.sample(vs, 2)
+            at_ = lambda v_: pred(rng.choice(["ge", "le", "gt"]), var(v_), rng.choice([const(0), const(S), const(2 * S), un("neg", const(S)), un("neg", const(2 * S))]))
+            inner = rng.choice([lambda: un("once", at_(e_)), lambda: un("hist", at_(e_)), lambda: bi("since", at_(e_), at_(e_)),
+                                lambda: un("not", un("once", at_(e_)))])()
+            phi = bi(rng.choice(["and", "or", "implies", "since", "until"]), *rng.sample([inner, at_(l_)], 2))
+            if rng.random() < 0.4:
+                phi = un(rng.choice(["once", "hist", "not", "ev"]), phi)
+            vs = vars_of(phi)
+            w = {v: w[v] for v in vs}
+            for v in vs:
+                w[v] = gen_signal(rng, rng.choice([2, 3, 4, 6]), t0=(0 if v == e_ else rng.choice([1, 2, 3])), S=S, end=end)
+        elif diffstart:
+            # signals that begin at different times: the result begins with the latest one, and every sub-formula is evaluated
+            # on its own domain (Dense!SigD) - a past operator over the earlier signal sees its samples before the common domain
+            late = rng.sample(vs, rng.randint(1, len(vs) - 1))
+            for v in late:
+                w[v] = gen_signal(rng, rng.choice([1, 2, 3, 4]), t0=rng.choice([1, 2, 3]), S=S, end=end)
         fac = rng.choice(["StlDenseTimeSpecification", "StlDenseTimeOfflineSpecification"])
-        cases.append(case([ct_obj(phi, S, vs, factory=fac)], [ev_parse(), ev_ct("evaluate", w, flt=rng.random() < 0.5)]))
+        cases.append(case([ct_obj(phi, S, vs, factory=fac)], [ev_parse(), ev_ct("evaluate", w, flt=rng.random() < 0.5)], diffstart=diffstart))
     return cases
 
 
@@ -67,6 +95,15 @@ def main():
                "all signal pairs with <= %d samples, common end <= %d" % (len(FU), 3 if quick else 4, 3 if quick else 5), r)
     if r["violated"]:
         rep.mc_violation("DenseOffMC", r)
+    # signals that begin at different times (0 or 1): every sub-formula is evaluated on its own domain (Dense!SigD)
+    FS_ = FU if not quick else [f_ for f_ in FU if len(vars_of(f_)) > 1 and not (ops_of(f_) & TIMED)]
+    r = densemc.run_offline("C04_off_starts", FS_ + [bi("and", un("once", ax), ay), bi("since", un("hist", ay), ax), bi("or", un("ev", ax), un("once", ay)),
+                                                    un("once", bi("and", ax, un("hist", ay))), bi("until", ax, un("once", ay))],
+                            maxt=3 if quick else 4, maxn=3, vals=(-2, 3) if quick else (-2, 1, 3), starts=(0, 1))
+    rep.add_mc("DenseOffMC with signals beginning at 0 or 1: DenseOff!OffC denotes Dense!SigD (sub-formulas on their own domains; bounded "
+               "operators over a late signal are finding F-04b and left out)", r)
+    if r["violated"]:
+        rep.mc_violation("DenseOffMC_starts", r)
     # the open finding F-04b at design level: the same model on signals whose first time-stamp is 1
     r = densemc.run_offline("C04_off_t0", FU, maxt=3, maxn=3, vals=(-2, 3), t0=1, expect_violation=True)
     rep.extra["deviation_on_counterexamples"] = {"first time-stamp 1 (F-04b, the model as transcribed)": r["violated"]}
